@@ -366,3 +366,56 @@ Qed.
 
 Theorem simple_widths_none ws missing : simple_widths None ws missing = None.
 Proof. reflexivity. Qed.
+
+(* ------------------------------------------------------------------ *)
+(** * C19: simple fonts whose dictionaries are ill-formed (negative /FirstChar, /Widths absent or shorter or longer
+      than /LastChar - /FirstChar + 1, /FirstChar > /LastChar).  font.rs never reads /LastChar: the table is /Widths
+      itself, placed at `first as usize`; there is no arithmetic that can overflow and no index that can be out of
+      bounds ([simple_widths] and [get] are total), and every code has the width below. *)
+
+Theorem simple_widths_any first ws missing c :
+  exists w, simple_widths (Some first) ws missing = Some w /\
+    get w c = simple_spec (i32_as_usize first) (match ws with Some l => l | None => [] end)
+                          (match missing with Some d => d | None => 0 end) c.
+Proof.
+  eexists. split; [reflexivity|].
+  rewrite get_getn. unfold getn, simple_spec. cbn [w_values w_default w_first].
+  set (f := i32_as_usize first). set (d := match missing with Some d => d | None => 0 end).
+  set (l := match ws with Some l => l | None => [] end).
+  destruct (N.ltb_spec c f), (N.leb_spec f c), (N.ltb_spec c (f + lenN l)); cbn [andb]; try lia; try reflexivity.
+  apply nth_beyond. unfold lenN in *. lia.
+Qed.
+
+(** a negative /FirstChar (an i32 cast to usize) puts the table above every code a content stream can produce:
+    all codes get /MissingWidth *)
+Corollary simple_widths_negative first ws missing c : (-2147483648 <= first < 0)%Z -> c < 18446744071562067968 ->
+  exists w, simple_widths (Some first) ws missing = Some w /\ get w c = match missing with Some d => d | None => 0 end.
+Proof.
+  intros Hf Hc. destruct (simple_widths_any first ws missing c) as [w [E G]]. exists w. split; [exact E|].
+  rewrite G. unfold simple_spec, i32_as_usize.
+  replace (0 <=? first)%Z with false by (symmetry; apply Z.leb_gt; lia).
+  replace (Z.to_N (18446744073709551616 + first) <=? c) with false; [reflexivity|].
+  symmetry. apply N.leb_gt. lia.
+Qed.
+
+(** /Widths shorter than the declared range: the codes beyond it get /MissingWidth; without /Widths: all codes *)
+Corollary simple_widths_short first ws missing c : (0 <= first)%Z -> Z.to_N first + lenN ws <= c ->
+  exists w, simple_widths (Some first) (Some ws) missing = Some w /\ get w c = match missing with Some d => d | None => 0 end.
+Proof.
+  intros Hf Hc. destruct (simple_widths_any first (Some ws) missing c) as [w [E G]]. exists w. split; [exact E|].
+  rewrite G. unfold simple_spec, i32_as_usize.
+  replace (0 <=? first)%Z with true by (symmetry; apply Z.leb_le; lia).
+  replace (c <? Z.to_N first + lenN ws) with false by (symmetry; apply N.ltb_ge; lia).
+  rewrite andb_false_r. reflexivity.
+Qed.
+
+Example simple_widths_illformed_examples :
+  (* /FirstChar -3 /Widths [1 2 3 4 5], no descriptor *)
+  (exists w, simple_widths (Some (-3)%Z) (Some [1; 2; 3; 4; 5]) None = Some w /\ map (get w) [0; 1; 2; 255; 4294967295] = [0; 0; 0; 0; 0]) /\
+  (* /FirstChar 65 /LastChar 70 /Widths [7 8] /MissingWidth 9 *)
+  (exists w, simple_widths (Some 65%Z) (Some [7; 8]) (Some 9) = Some w /\ map (get w) [64; 65; 66; 67; 70] = [9; 7; 8; 9; 9]) /\
+  (* /FirstChar 70 /LastChar 65 /Widths [7 8]: /LastChar is not read *)
+  (exists w, simple_widths (Some 70%Z) (Some [7; 8]) (Some 9) = Some w /\ map (get w) [65; 69; 70; 71; 72] = [9; 9; 7; 8; 9]) /\
+  (* /FirstChar 2147483647 *)
+  (exists w, simple_widths (Some 2147483647%Z) (Some [7]) None = Some w /\ map (get w) [0; 2147483647; 2147483648] = [0; 7; 0]).
+Proof. repeat split; eexists; split; reflexivity. Qed.
